@@ -774,13 +774,38 @@ func opZDelete(k string, es []string) step {
 		return rInt(e.r.ZSet().Delete(k, anys(es, false)...))
 	}}
 }
+// The builder commands of sorted sets (DeleteWith, InterWith / UnionWith with a destination) are sometimes BUILT a few
+// milliseconds before they run (the `prep` hook of the step, like prepared SetWith commands): whatever a command
+// object captures when it is created - a clock value, a key lookup - then differs from what holds when it runs.
 func opZDeleteRank(k string, a, b int) step {
-	return step{text: fmt.Sprintf("zset.DeleteRank %s %d %d", hxs(k), a, b), family: "zset", run: func(e *env, _ func(int64) int64) string {
+	var prepared *rzset.DeleteCmd
+	return step{text: fmt.Sprintf("zset.DeleteRank %s %d %d", hxs(k), a, b), family: "zset", prep: func(e *env) {
+		if (a+b)%2 == 0 {
+			c := e.r.ZSet().DeleteWith(k).ByRank(a, b)
+			prepared = &c
+		}
+	}, run: func(e *env, _ func(int64) int64) string {
+		if prepared != nil {
+			c := *prepared
+			prepared = nil
+			return rInt(c.Run())
+		}
 		return rInt(e.r.ZSet().DeleteWith(k).ByRank(a, b).Run())
 	}}
 }
 func opZDeleteScore(k string, lo, hi float64) step {
-	return step{text: fmt.Sprintf("zset.DeleteScore %s %s %s", hxs(k), dy(lo), dy(hi)), family: "zset", run: func(e *env, _ func(int64) int64) string {
+	var prepared *rzset.DeleteCmd
+	return step{text: fmt.Sprintf("zset.DeleteScore %s %s %s", hxs(k), dy(lo), dy(hi)), family: "zset", prep: func(e *env) {
+		if len(k)%2 == 0 {
+			c := e.r.ZSet().DeleteWith(k).ByScore(lo, hi)
+			prepared = &c
+		}
+	}, run: func(e *env, _ func(int64) int64) string {
+		if prepared != nil {
+			c := *prepared
+			prepared = nil
+			return rInt(c.Run())
+		}
 		return rInt(e.r.ZSet().DeleteWith(k).ByScore(lo, hi).Run())
 	}}
 }
@@ -841,7 +866,7 @@ func opZUnion(ks []string, agg int) step {
 	}}
 }
 func opZInterStore(d string, ks []string, agg int) step {
-	return step{text: "zset.InterStore " + hxs(d) + " " + listTok(ks) + " " + aggName(agg), family: "zset", run: func(e *env, _ func(int64) int64) string {
+	build := func(e *env) rzset.InterCmd {
 		c := e.r.ZSet().InterWith(ks...).Dest(d)
 		switch agg {
 		case 1:
@@ -849,11 +874,25 @@ func opZInterStore(d string, ks []string, agg int) step {
 		case 2:
 			c = c.Max()
 		}
-		return rInt(c.Store())
+		return c
+	}
+	var prepared *rzset.InterCmd
+	return step{text: "zset.InterStore " + hxs(d) + " " + listTok(ks) + " " + aggName(agg), family: "zset", prep: func(e *env) {
+		if len(ks)%2 == 0 {
+			c := build(e)
+			prepared = &c
+		}
+	}, run: func(e *env, _ func(int64) int64) string {
+		if prepared != nil {
+			c := *prepared
+			prepared = nil
+			return rInt(c.Store())
+		}
+		return rInt(build(e).Store())
 	}}
 }
 func opZUnionStore(d string, ks []string, agg int) step {
-	return step{text: "zset.UnionStore " + hxs(d) + " " + listTok(ks) + " " + aggName(agg), family: "zset", run: func(e *env, _ func(int64) int64) string {
+	build := func(e *env) rzset.UnionCmd {
 		c := e.r.ZSet().UnionWith(ks...).Dest(d)
 		switch agg {
 		case 1:
@@ -861,7 +900,21 @@ func opZUnionStore(d string, ks []string, agg int) step {
 		case 2:
 			c = c.Max()
 		}
-		return rInt(c.Store())
+		return c
+	}
+	var prepared *rzset.UnionCmd
+	return step{text: "zset.UnionStore " + hxs(d) + " " + listTok(ks) + " " + aggName(agg), family: "zset", prep: func(e *env) {
+		if len(ks)%2 == 1 {
+			c := build(e)
+			prepared = &c
+		}
+	}, run: func(e *env, _ func(int64) int64) string {
+		if prepared != nil {
+			c := *prepared
+			prepared = nil
+			return rInt(c.Store())
+		}
+		return rInt(build(e).Store())
 	}}
 }
 func opZLen(k string) step {
